@@ -31,7 +31,9 @@ RULE = ('cases = random flat machines (2-6 states, plain or Enum states, labels,
         'distinct by hash of the case.')
 ASSUMPTIONS = ['only the Mermaid backend exists in this sandbox (python modules graphviz / pygraphviz are not '
                'installed): every case uses graph_engine="mermaid"; the graphviz backends are not exercised',
-               'one model per machine; callbacks do not raise; callbacks that call back into the machine are (i) on_enter / '
+               'one model per graph machine (40 % of the cases keep the state in a custom model_attribute, half of those with a '
+               'second plain Machine managing the same model under "state"; flat machines with a custom attribute have '
+               'auto_transitions=False, see KF-C14-3); callbacks do not raise; callbacks that call back into the machine are (i) on_enter / '
                'on_exit callbacks firing a follow-up event with model.trigger (unqueued synchronous machines, nesting bounded '
                'by a per-call counter 1-3, failing follow-ups swallowed by the callback) and (ii) callbacks calling '
                'model.get_graph(force_new=True), both on machines whose states are all simple (either machine class); '
@@ -170,6 +172,14 @@ def gen(rng, i, tier):
                 initial=rng.choice(paths), ops=[], val=val, acts={}, budget=0, regen=[], autos=rng.random() >= 0.35,
                 cls=_pick_cls(rng.random()))
     case['scoped'] = _scoped(rng, forest, val) if hsm else []
+    # the attribute of the model that holds the state; with a custom one optionally a second, plain machine that
+    # manages the same model under 'state' (sharing the top-level state names, resting in some state)
+    case['mattr'] = 'state' if rng.random() < 0.6 else rng.choice(['phase', 'mode'])
+    case['decoy'] = rng.choice(forest)['id'] if (case['mattr'] != 'state' and rng.random() < 0.5) else None
+    if case['mattr'] != 'state' and not hsm:
+        # a flat machine names its automatic events to_<attribute>_<state>; the markup does not recognise them as
+        # automatic and always exports them (KF-C14-3, C14's subject): flat custom-attribute cases have none
+        case['autos'] = False
     if nested:
         _add_acts(rng, case, val)
     if wide:
@@ -584,12 +594,19 @@ def impl(case):
     states = en if en is not None else [_state_cfg(nd, hsm, case.get('scoped', [])) for nd in case['states']]
     kw = dict(model=model, states=states, initial=sref(case['initial']),
               transitions=[tcfg(t) for t in case['trans']], graph_engine='mermaid',
-              auto_transitions=bool(case.get('autos', True)),
+              auto_transitions=bool(case.get('autos', True)), model_attribute=case.get('mattr', 'state'),
               show_conditions=o['conds'], show_auto_transitions=o['auto'], show_state_attributes=o['attrs'])
     machine = (HsmM if hsm else FlatM)(**kw)
+    mattr = case.get('mattr', 'state')
+    if case.get('decoy') is not None and mattr != 'state':
+        # bound after the graph machine: its convenience methods are skipped where the names are taken, it only
+        # owns model.state, which never changes
+        tr.Machine(model, states=[nd['text'] for nd in case['states']], initial=names.text([case['decoy']]),
+                   auto_transitions=False)
+        assert model.state == names.text([case['decoy']])
 
     def observe():
-        cur = [names.path(s) for s in _flatten(getattr(model, 'state'))]
+        cur = [names.path(s) for s in _flatten(getattr(model, mattr))]
         full = parse_mermaid(model.get_graph().draw(None), names)
         roi = parse_mermaid(model.get_graph(show_roi=True).draw(None), names)
         return [cur, full, roi]
@@ -750,6 +767,10 @@ def stats(case, obs, dist):
     if case.get('regen'):
         inc('with_regenerating_callbacks')
     inc('class_' + case.get('cls', 'sync'))
+    if case.get('mattr', 'state') != 'state':
+        inc('custom_model_attribute')
+    if case.get('decoy') is not None:
+        inc('second_machine_on_state')
     if not case.get('autos', True):
         inc('auto_transitions_off')
     if case.get('cls') == 'async' and case.get('acts'):
@@ -801,6 +822,10 @@ def shrink_candidates(case):
             c = copy.deepcopy(case)
             c['opts'][key] = False
             yield c
+    if case.get('decoy') is not None:
+        c = copy.deepcopy(case)
+        c['decoy'] = None
+        yield c
     for cb in sorted(case.get('acts', {})):
         c = copy.deepcopy(case)
         del c['acts'][cb]
